@@ -239,16 +239,6 @@ func (s *stream) Open() {
 		End:   vbIDs[len(vbIDs)-1],
 	}
 
-	if !s.config.RollbackMitigation.Disabled {
-		if s.bucketInfo.IsEphemeral() {
-			logger.Log.Info("rollback mitigation is disabled for ephemeral bucket")
-			s.config.RollbackMitigation.Disabled = true
-		} else {
-			s.rollbackMitigation = couchbase.NewRollbackMitigation(s.client, s.config, vbIDs, s.dispatchPersistSeqNo)
-			s.rollbackMitigation.Start()
-		}
-	}
-
 	s.activeStreams.Swap(int32(len(vbIDs)))
 
 	latestSeqNoInitializer := offset.NewOffsetLatestSeqNoInit(s.config)
@@ -267,6 +257,18 @@ func (s *stream) Open() {
 
 		return true
 	})
+
+	// started once the observers exist: a persisted-seqno report is dispatched to them only when it
+	// changes, so one that arrived earlier would be lost and the events of an idle vBucket would wait forever
+	if !s.config.RollbackMitigation.Disabled {
+		if s.bucketInfo.IsEphemeral() {
+			logger.Log.Info("rollback mitigation is disabled for ephemeral bucket")
+			s.config.RollbackMitigation.Disabled = true
+		} else {
+			s.rollbackMitigation = couchbase.NewRollbackMitigation(s.client, s.config, vbIDs, s.dispatchPersistSeqNo)
+			s.rollbackMitigation.Start()
+		}
+	}
 
 	s.openAllStreams(vbIDs)
 
